@@ -122,10 +122,6 @@ impl Env {
         // harness-only: no fsync per commit (durability is not what this check observes; the
         // connections are otherwise exactly those of sqlite_database::create_connection)
         wconn.pragma_update(None, "synchronous", "0").unwrap();
-        for pg in ["synchronous", "journal_mode", "cache_size", "foreign_keys", "auto_vacuum", "busy_timeout"] {
-            let v: String = wconn.query_row(&format!("PRAGMA {}", pg), [], |r| r.get::<_, rusqlite::types::Value>(0)).map(|v| format!("{:?}", v)).unwrap_or("?".into());
-            eprintln!("c16: writer PRAGMA {} = {}", pg, v);
-        }
         let mut dm = DataModel::new();
         dm.update_system(SYSTEM_DATA_MODEL).unwrap();
         dm.update(MODEL).unwrap();
@@ -234,7 +230,6 @@ impl Env {
             match *e {
                 Ev::R(i) => {
                     // a reader connection only sees committed batches
-                    self.commit();
                     verif_clock::set(BASE + mdate_of(i));
                     let (text, mut params) = self.mutation_text(&s.muts[i]);
                     let p = self.parser(&text);
@@ -351,6 +346,28 @@ fn random_schedule(rng: &mut Rng, n: usize) -> Vec<Ev> {
     }
     cur
 }
+/// a random schedule in which windows on one row never overlap (windows on different rows do)
+fn random_schedule_disjoint(rng: &mut Rng, s: &Scen) -> Vec<Ev> {
+    let n = s.muts.len();
+    let mut phase = vec![0u8; n];
+    let mut fifo: Vec<usize> = vec![];
+    let mut cur = vec![];
+    while cur.len() < 3 * n {
+        let mut opts = vec![];
+        for i in 0..n {
+            match phase[i] {
+                0 => if !(0..n).any(|j| j != i && (phase[j] == 1 || phase[j] == 2) && s.muts[j].row == s.muts[i].row) { opts.push(Ev::R(i)) },
+                1 => opts.push(Ev::V(i)),
+                2 => if fifo.first() == Some(&i) { opts.push(Ev::W(i)) },
+                _ => {}
+            }
+        }
+        let e = *rng.pick(&opts);
+        match e { Ev::R(i) => phase[i] = 1, Ev::V(i) => { phase[i] = 2; fifo.push(i) }, Ev::W(i) => { phase[i] = 3; fifo.remove(0); } }
+        cur.push(e);
+    }
+    cur
+}
 /// a Read of a mutation on row x between the Read and the Write of another mutation on x
 fn overlapping(s: &Scen, sigma: &[Ev]) -> bool {
     let mut open: Vec<usize> = vec![];
@@ -437,7 +454,7 @@ fn gen_refop(rng: &mut Rng, used: &mut Vec<u64>) -> Option<RefOp> {
          else { RefOp::Add(l, (0..1 + rng.below(2)).map(|_| rng.below(NTAGS)).collect()) })
 }
 fn gen_scen(rng: &mut Rng, n: usize) -> Scen {
-    let nrows = if rng.chance(1, 3) { 2 } else { 1 };
+    let nrows = if rng.chance(1, 2) { 2 } else { 1 };
     let rows: Vec<RowInit> = (0..nrows).map(|_| {
         let mut edges = vec![];
         for l in [0u64, 2] { for t in 0..NTAGS { if rng.chance(1, 3) { edges.push((l, t)); } } }
@@ -529,13 +546,16 @@ fn main() {
         }
     }
     // 3. random scenarios: all schedules (2 mutations) or random schedules (3 mutations)
-    for _ in 0..scale(12, 150) {
+    for _ in 0..scale(30, 150) {
         let s = gen_scen(&mut rng, 2);
         for (k, sg) in sched2.iter().enumerate() { let c = rn.case("random2", &s, sg, k % 3 == 1); out.push(c); }
     }
-    for _ in 0..scale(25, 300) {
+    for _ in 0..scale(50, 300) {
         let s = gen_scen(&mut rng, 3);
-        for k in 0..scale(6, 12) { let sg = random_schedule(&mut rng, 3); let c = rn.case("random3", &s, &sg, k % 3 == 1); out.push(c); }
+        for k in 0..scale(8, 16) {
+            let (kind, sg) = if k % 2 == 0 { ("random3", random_schedule(&mut rng, 3)) } else { ("random3-disjoint-windows", random_schedule_disjoint(&mut rng, &s)) };
+            let c = rn.case(kind, &s, &sg, k % 3 == 1); out.push(c);
+        }
     }
     eprintln!("c16: total {:?}", t0.elapsed());
     eprintln!("c16: {} cases; schedules of 2: {}, of 3: {}; overlapping windows: {}; final state equals a serial outcome: {}, does not: {}; {:?}",
